@@ -612,8 +612,47 @@ def nameLabel : Str := "kubernetes.io/metadata.name".toList
 def namespaceSet (name : Str) (labels : List (Str × Str)) : List (Str × Str) :=
   (nameLabel, name) :: labels.filter (fun kv => kv.1 ≠ nameLabel)
 
-/-- `NamespaceAcceptedByAllowListeners(local, parent, lookup)`. `nsLabels = none`: the namespace object is not found. -/
-def nsAccepted (localNs parentNs : Str) (mode : ALMode) (sel : Option (List (Str × Str)))
+/-- `metav1.LabelSelectorRequirement` operators. -/
+inductive LOp
+  | in_ | notIn | exists_ | doesNotExist | bogus
+  deriving DecidableEq, Repr
+
+/-- One `matchExpressions` entry. -/
+structure LExpr where
+  key  : Str
+  op   : LOp
+  vals : List Str
+  deriving DecidableEq, Repr
+
+/-- `LabelSelectorAsSelector` fails (and the namespace is then refused) on `In`/`NotIn` without values, on
+    `Exists`/`DoesNotExist` with values and on unknown operators. -/
+def LExpr.valid (e : LExpr) : Bool :=
+  match e.op with
+  | .in_ | .notIn => !e.vals.isEmpty
+  | .exists_ | .doesNotExist => e.vals.isEmpty
+  | .bogus => false
+
+def lookupLabel (labels : List (Str × Str)) (k : Str) : Option Str :=
+  match labels.find? (fun kv => kv.1 = k) with
+  | some kv => some kv.2
+  | none => none
+
+/-- `labels.Requirement.Matches`. -/
+def LExpr.matches (e : LExpr) (labels : List (Str × Str)) : Bool :=
+  match e.op, lookupLabel labels e.key with
+  | .in_, some v => e.vals.contains v
+  | .in_, none => false
+  | .notIn, some v => !e.vals.contains v
+  | .notIn, none => true
+  | .exists_, some _ => true
+  | .exists_, none => false
+  | .doesNotExist, some _ => false
+  | .doesNotExist, none => true
+  | .bogus, _ => false
+
+/-- `NamespaceAcceptedByAllowListeners(local, parent, lookup)`. `nsLabels = none`: the namespace object is not found.
+    The selector is `matchLabels` (`sel`) plus `matchExpressions` (`exprs`). -/
+def nsAccepted (localNs parentNs : Str) (mode : ALMode) (sel : Option (List (Str × Str))) (exprs : List LExpr)
     (nsLabels : Option (List (Str × Str))) : Bool :=
   match mode with
   | .absent | .noNamespaces | .none_ | .bogus => false
@@ -621,7 +660,10 @@ def nsAccepted (localNs parentNs : Str) (mode : ALMode) (sel : Option (List (Str
   | .same => localNs = parentNs
   | .selector | .unset =>
     match sel, nsLabels with
-    | some s, some l => s.all fun kv => (namespaceSet localNs l).contains kv
+    | some s, some l =>
+      exprs.all LExpr.valid &&
+        (s.all fun kv => lookupLabel (namespaceSet localNs l) kv.1 = some kv.2) &&
+        (exprs.all fun e => e.matches (namespaceSet localNs l))
     | _, _ => false
 
 /-! ### ReferenceGrant evaluation (pilot/pkg/config/kube/gatewaycommon/references.go) -/
@@ -725,5 +767,81 @@ def generateT (w : World) (s : TState) (p : Proxy) (names : List Str) (req : Opt
         else fin plain s
       | _, _ => (none, s)
   | _, _ => (none, s)
+
+/-! ### The other VerifiedIdentity-gated surfaces: debug / status / API generators -/
+
+/-- What a debug config dump shows of a secret (`getConfigDumpByResourceType`): the certificate chain or CA; the
+    private key - inline or inside a private-key-provider config - is redacted. -/
+def Val.redacted : Val → Str
+  | .tls c _ => c
+  | .ca c => c
+
+def systemNs : Str := "istio-system".toList
+
+/-- What a proxy may ask: debug generator `config_dump?proxyID=V&types=sds` / `config_dump?proxyID=V` / `syncz` /
+    its own `config_dump`; status generator `istio.io/debug/config_dump` / `istio.io/debug/syncz`; API generator. -/
+inductive DebugQuery
+  | sds | full | sgdump | syncz | sgsyncz | api | self
+  deriving DecidableEq, Repr
+
+inductive DebugOutcome
+  | accepted | denied | unauthenticated
+  deriving DecidableEq, Repr
+
+/-- How the asking stream ends: all three generators refuse a proxy without `VerifiedIdentity`; `syncz` of the debug
+    generator and the API generator are for the system namespace only. -/
+def debugOutcome (asker : Option Identity) (q : DebugQuery) : DebugOutcome :=
+  match asker with
+  | none => .unauthenticated
+  | some id =>
+    match q with
+    | .syncz | .api => if id.ns = systemNs then .accepted else .denied
+    | _ => .accepted
+
+/-- Config dumps of another proxy are visible to the system namespace and to the proxy's own (config) namespace. -/
+def debugVisible (asker : Identity) (victimCfgNs : Str) : Bool := asker.ns = systemNs || victimCfgNs = asker.ns
+
+/-- The secret payloads a dump of the victim's SDS state shows to the asker. -/
+def debugDump (asker : Option Identity) (q : DebugQuery) (victimCfgNs : Str) (victimSecrets : List (Str × Val)) : List Str :=
+  match asker with
+  | none => []
+  | some id =>
+    match q with
+    | .sds | .full | .sgdump => if debugVisible id victimCfgNs then victimSecrets.map (fun e => e.2.redacted) else []
+    | _ => []
+
+/-! ### Private key providers (sds.go: pkpConfHash in the cache key, toEnvoyTLSSecret) -/
+
+/-- The effective private key provider of a proxy (`Metadata.ProxyConfigOrDefault(mesh default)`): the proxy's own
+    ProxyConfig when it sent one - even one without a provider - else the mesh-wide default. The string is the label of
+    the provider configuration (`[]` = none); in the real key it is the xxhash of the configuration. -/
+def effectivePkp (meshDefault : Str) (own : Option Str) : Str :=
+  match own with
+  | some k => k
+  | none => meshDefault
+
+/-- The real cache key: `credentials.SecretResource.Key() + "/" + pkpConfHash`. -/
+def SR.fullKey (r : SR) (hash : Str) : Str := r.key ++ hash
+
+/-- The xDS cache seen through its key suffixes: one partition per provider hash. Because the hash is the last,
+    slash-free component of the key (`fullKey_injective`), entries of different partitions never meet. -/
+abbrev PCaches := List (Str × Cache)
+
+def PCaches.part (pcs : PCaches) (hash : Str) : Cache :=
+  match pcs.find? (fun e => e.1 = hash) with
+  | some e => e.2
+  | none => []
+
+def PCaches.setPart (pcs : PCaches) (hash : Str) (c : Cache) : PCaches :=
+  (hash, c) :: pcs.filter (fun e => e.1 ≠ hash)
+
+/-- `SecretGen.Generate` for a proxy with effective provider `hash`: `generateT` on the partition of that hash. The
+    released content is the same; `toEnvoyTLSSecret` only moves the key into the provider's config. -/
+def generateP (w : World) (pcs : PCaches) (now : Nat) (acs : List (Str × AuthCache)) (hash : Str) (p : Proxy)
+    (names : List Str) (req : Option PushReq) : Option GenOut × PCaches × List (Str × AuthCache) :=
+  let r := generateT w { cache := pcs.part hash, now := now, acs := acs } p names req
+  match r.1 with
+  | some o => (some o, pcs.setPart hash o.cache, r.2.acs)
+  | none => (none, pcs, r.2.acs)
 
 end IstioModel.C11
